@@ -7,7 +7,7 @@
 (***************************************************************************)
 EXTENDS Integers, Sequences, FiniteSets, TLC, Json, IOUtils, SequencesExt
 
-CONSTANTS Stride, Seed
+CONSTANTS Stride, TStride, Seed
 
 L(p, n) == [p |-> p, n |-> n, xs |-> <<>>, w |-> <<>>]
 And(a, c) == [p |-> "and", n |-> 0, xs |-> <<a, c>>, w |-> <<>>]
@@ -26,6 +26,24 @@ P4 == {And(x, y) : x \in {q \in P2 : q.p = "or"}, y \in {q \in P2 : q.p = "or" /
       \cup {Thr(k, <<x, c, d>>) : k \in 1..3, x \in {q \in P2 : q.w \in {<<>>, <<1, 1>>}}, c \in Atoms, d \in Atoms}
       \cup {Thr(2, <<a, c, d, e>>) : a \in Atoms, c \in Atoms, d \in Atoms, e \in {L("key", 4), L("older", 10)}}
 
+\* thresholds with ONE composite member in every position (the compiler orders and wraps the
+\* members of a thresh by cost, so the position of the expensive member matters), 3 and 4 members
+K0 == L("key", 0)      \* placeholder, labelled 1, 2, 3, ... in order of occurrence by Relabel
+Small == {K0, L("older", 10), L("sha256", 1)}
+X2 == {Or(K0, K0, 1, 1), Thr(1, <<K0, K0>>)} \cup {And(a, c) : a \in Small, c \in {L("older", 10), L("sha256", 1), L("sha256", 2)}}
+PT0 == UNION {{Thr(k, InsertAt(<<a, K0>>, q, x)) : k \in 1..3, q \in 1..3} : x \in X2, a \in Small}
+       \cup UNION {{Thr(k, InsertAt(<<K0, K0, d>>, q, x)) : k \in 2..3, q \in 1..4} : x \in X2, d \in {K0, L("older", 10)}}
+RECURSIVE Relab(_, _)
+RECURSIVE RelabSeq(_, _, _, _)
+RelabSeq(xs, q, nxt, acc) ==
+  IF q > Len(xs) THEN [xs |-> acc, nxt |-> nxt]
+  ELSE LET r == Relab(xs[q], nxt) IN RelabSeq(xs, q + 1, r.nxt, Append(acc, r.p))
+Relab(P, nxt) ==
+  IF P.p = "key" THEN [p |-> L("key", nxt), nxt |-> nxt + 1]
+  ELSE IF Len(P.xs) = 0 THEN [p |-> P, nxt |-> nxt]
+  ELSE LET r == RelabSeq(P.xs, 1, nxt, <<>>) IN [p |-> [P EXCEPT !.xs = r.xs], nxt |-> r.nxt]
+PT == {Relab(P, 1).p : P \in PT0}
+
 RECURSIVE KeysOfP(_)
 RECURSIVE KeysOfPS(_, _)
 KeysOfPS(xs, q) == IF q > Len(xs) THEN <<>> ELSE KeysOfP(xs[q]) \o KeysOfPS(xs, q + 1)
@@ -38,9 +56,12 @@ FirstOcc(ks, q, seen) == IF q > Len(ks) THEN TRUE
 Canonical(P) == LET ks == KeysOfP(P) IN FirstOcc(ks, 1, 0) /\ Cardinality(Range(ks)) = Len(ks) /\ Len(ks) >= 1
 
 All == SetToSeq({P \in Atoms \cup P2 \cup P3 \cup P4 : Canonical(P)})
+AllT == SetToSeq({P \in PT : Canonical(P)} \ Range(All))
 Kept == SelectSeq([q \in 1..Len(All) |-> <<q, All[q]>>], LAMBDA x : x[1] % Stride = Seed % Stride)
+KeptT == SelectSeq([q \in 1..Len(AllT) |-> <<Len(All) + q, AllT[q]>>], LAMBDA x : x[1] % TStride = Seed % TStride)
 Cases == [q \in 1..Len(Kept) |-> [id |-> Kept[q][1], pol |-> Kept[q][2]]]
+         \o [q \in 1..Len(KeptT) |-> [id |-> KeptT[q][1], pol |-> KeptT[q][2]]]
 
 ASSUME ndJsonSerialize(IOEnv.OUT, Cases)
-ASSUME PrintT("GEN " \o ToJson(<<"policies", Len(Cases), Len(All)>>))
+ASSUME PrintT("GEN " \o ToJson(<<"policies", Len(Cases), Len(All), Len(AllT)>>))
 =============================================================================
